@@ -241,6 +241,7 @@ func checkC19(c *km.Ctx) {
 		r.Add("R-C19-2", km.FuncName(fn), "request body file part", c.P.Pos(fn.Pos()), "the uploaded file content is the filedata parameter (the public key text)", sprintf("%v", ok), ok)
 	}
 
+	checkAgentConnectionLocal(c, "R-C19-1")
 	// ---------- R-C19-3
 	if fn := c.MustFunc("R-C19-3", "lib/client/sshagent", "withAddedKeyUpsertCertIntoAgentConnection"); fn != nil {
 		var del, add ssa.CallInstruction
@@ -861,4 +862,113 @@ func helperResultsPublic(g *ssa.Function, call *ssa.Call, signer *ssa.Parameter,
 		why = "no result"
 	}
 	return false, why + " (in " + g.Name() + ")"
+}
+
+// checkAgentConnectionLocal: the connection a private key is written to is the local agent's: a unix-domain
+// socket (or the named pipe of the Windows agent). Every connection handed to the agent functions of
+// lib/client/sshagent, and the one they open themselves, comes from a dial whose network is the constant "unix"
+// or from npipe.Dial; a dial whose network is "tcp", or is not a constant, can carry the key off the machine.
+func checkAgentConnectionLocal(c *km.Ctx, rule string) {
+	agentPkg := km.ModPath + "/lib/client/sshagent"
+	var local func(v ssa.Value, d int) (bool, string)
+	local = func(v ssa.Value, d int) (bool, string) {
+		if d > 6 {
+			return false, "too deep"
+		}
+		v = km.CellOrigin(km.Unwrap(v))
+		switch x := v.(type) {
+		case *ssa.Extract:
+			return local(x.Tuple, d+1)
+		case *ssa.Phi:
+			for _, e := range x.Edges {
+				if km.IsNilConst(e) {
+					continue
+				}
+				if ok, why := local(e, d+1); !ok {
+					return false, why
+				}
+			}
+			return true, ""
+		case *ssa.Call:
+			switch n := km.CalleeFull(x.Common()); n {
+			case "net.Dial", "net.DialTimeout":
+				nw, isC := km.ConstString(x.Common().Args[0])
+				if isC && (nw == "unix" || nw == "unixpacket") {
+					return true, ""
+				}
+				return false, "dial of network " + km.ValStr(x.Common().Args[0]) + " at " + posOf(c, x)
+			case "github.com/Cloud-Foundations/npipe.Dial", "github.com/Cloud-Foundations/npipe.DialTimeout":
+				return true, ""
+			}
+			g := km.StaticCallee(x.Common())
+			if g == nil || len(g.Blocks) == 0 || !c.InModule(g) {
+				return false, "connection from " + short(km.CalleeFull(x.Common()))
+			}
+			any := false
+			for _, b := range g.Blocks {
+				ret, ok := b.Instrs[len(b.Instrs)-1].(*ssa.Return)
+				if !ok {
+					continue
+				}
+				rv := km.ReturnValues(ret)
+				if len(rv) == 0 || km.IsNilConst(rv[0]) {
+					continue
+				}
+				any = true
+				if ok, why := local(rv[0], d+1); !ok {
+					return false, why
+				}
+			}
+			return any, "no connection returned by " + km.NameOf(g)
+		case *ssa.Parameter:
+			fn := x.Parent()
+			idx := -1
+			for i, q := range fn.Params {
+				if q == x {
+					idx = i
+				}
+			}
+			sites := c.G.Callers[fn]
+			if idx < 0 || len(sites) == 0 {
+				// an exported entry point of the library without a caller in the module: the caller's business
+				return true, ""
+			}
+			for _, cs := range sites {
+				ci, ok := cs.Instr.(ssa.CallInstruction)
+				if !ok {
+					return false, "non-call use of " + km.NameOf(fn)
+				}
+				a := callArgsAsParams(ci, fn)
+				if a == nil || idx >= len(a) {
+					return false, "unresolved call of " + km.NameOf(fn)
+				}
+				if ok, why := local(a[idx], d+1); !ok {
+					return false, why
+				}
+			}
+			return true, ""
+		}
+		return false, "connection of unknown origin " + km.ValStr(v)
+	}
+	n := 0
+	for _, fn := range c.P.AllFuncs {
+		if !c.InModule(fn) {
+			continue
+		}
+		for _, ci := range km.CallsIn(fn) {
+			// the agent client is created on this connection
+			if km.CalleeFull(ci.Common()) != "golang.org/x/crypto/ssh/agent.NewClient" {
+				continue
+			}
+			if fn.Pkg == nil || (fn.Pkg.Pkg.Path() != agentPkg && !strings.HasSuffix(fn.Pkg.Pkg.Path(), "/cmd/keymaster")) {
+				continue
+			}
+			n++
+			ok, why := local(ci.Common().Args[0], 0)
+			c.R.Add(rule, km.FuncName(fn), "connection of the agent client", posOf(c, ci), "a unix-domain socket or the agent's named pipe (the key never leaves the machine)", why, ok)
+		}
+	}
+	if n == 0 {
+		c.R.AnchorLost(rule, "agent.NewClient in lib/client/sshagent")
+	}
 }
